@@ -595,7 +595,8 @@ func (s *Store) CreateDB(name string) (db *DB, f *os.File, err error) {
 // isValidDBName returns true if name is a plain file name. Every database
 // lives in a directory of that name directly under the "dbs" directory.
 func isValidDBName(name string) bool {
-	return name != "" && name != "." && name != ".." && name == filepath.Base(name)
+	return name != "" && name != "." && name != ".." && name == filepath.Base(name) &&
+		!strings.ContainsRune(name, filepath.Separator)
 }
 
 // CreateDBIfNotExists creates an empty database with the given name.
